@@ -27,6 +27,7 @@ def showErr : Err → String
   | .missingBlob => "err:missing-blob"
   | .mcasMismatch => "err:mcas-mismatch"
   | .mcasNotZero => "err:mcas-notzero"
+  | .badPath => "err:badpath"
 
 def showCfgDva : CfgDva → String
   | .unset => "0" | .future => "F" | .disabled => "N"
@@ -182,7 +183,7 @@ def stepLine (st : St) (fs : List String) : St × String :=
   | _ =>
     match parseOp fs with
     | some op =>
-      let (s', r) := step st.st op
+      let (s', r) := stepC st.st op
       ({ st with st := s' }, showResp r)
     | none => (st, "bad-op")
 
